@@ -19,6 +19,7 @@ import (
 	authsigning "github.com/cosmos/cosmos-sdk/x/auth/signing"
 	authtx "github.com/cosmos/cosmos-sdk/x/auth/tx"
 	banktypes "github.com/cosmos/cosmos-sdk/x/bank/types"
+	"github.com/cosmos/cosmos-sdk/x/feegrant"
 	"github.com/ethereum/go-ethereum/common"
 	ethtypes "github.com/ethereum/go-ethereum/core/types"
 
@@ -93,7 +94,7 @@ func c03Gen(r *rand.Rand, tier string) []Case {
 	// every post-signing change on every route once, next to an untouched transaction of the same route
 	for _, route := range []string{"cos", "e712", "e712l"} {
 		c := Case{fmt.Sprintf("%s ? ? ? ? # k=1 signseq=0 chain=ok mutate=none", route)}
-		for _, mut := range []string{"memo", "amount", "fee", "gas", "to", "timeout", "extopt"} {
+		for _, mut := range []string{"memo", "amount", "fee", "gas", "to", "timeout", "extopt", "granter"} {
 			c = append(c, fmt.Sprintf("%s ? ? ? ? # k=1 signseq=0 chain=ok mutate=%s", route, mut))
 		}
 		c = append(c, fmt.Sprintf("%s ? ? ? ? # k=1 signseq=0 chain=other mutate=none", route), fmt.Sprintf("%s ? ? ? ? # k=1 signseq=0 chain=ok mutate=none", route))
@@ -134,7 +135,7 @@ func c03Gen(r *rand.Rand, tier string) []Case {
 					pick(r, []string{"nonce", "price", "tip", "gas", "to", "value", "data", "accesslist", "chainid", "v", "r", "s", "foreignchain"})))
 			case x < 16:
 				route := pick(r, []string{"cos", "cos", "e712", "e712l"})
-				mut := pick(r, []string{"none", "none", "none", "memo", "amount", "fee", "gas", "to", "timeout", "extopt"})
+				mut := pick(r, []string{"none", "none", "none", "memo", "amount", "fee", "gas", "to", "timeout", "extopt", "granter"})
 				seq := pick(r, []string{"0", "0", "0", "1", "-1"})
 				chain := pick(r, []string{"ok", "ok", "ok", "other"})
 				if route != "cos" {
@@ -391,6 +392,15 @@ func c03Exec(c Case) (outs []string, fails []Failure, tags []string) {
 						intact = "0"
 					case "timeout":
 						builder.SetTimeoutHeight(1_000_000)
+						intact = "0"
+					case "granter":
+						// someone who has granted the signer a fee allowance is named as fee granter after signing: the fee
+						// would come out of that account instead of the signer's
+						g := kr.GetKey(1 + (k % 3))
+						if err := app.FeeGrantKeeper.GrantAllowance(nw.GetContext(), g.AccAddr, key.AccAddr, &feegrant.BasicAllowance{}); err != nil && !strings.Contains(err.Error(), "already exists") {
+							panic(err)
+						}
+						builder.SetFeeGranter(g.AccAddr)
 						intact = "0"
 					case "extopt":
 						// a critical extension option the ante handler admits (the dynamic-fee option: it sets the tip the fee
